@@ -49,6 +49,7 @@ def s_jobs(ctx):
                 # the engine starts at a non-zero (dyadic) time
                 jobs.append(('S', procs, sc, False, 10.5))
         jobs += big_clock_jobs(1)
+        jobs += emit_step_jobs(ctx)
     else:
         for n in (1, 2):
             for procs in itertools.product(pc, repeat=n):
@@ -62,10 +63,24 @@ def s_jobs(ctx):
             for sc in sched.scripts(2):
                 jobs.append(('S', procs, sc, True))
         jobs += big_clock_jobs(2)
+        jobs += emit_step_jobs(ctx)
     return jobs
 
 
 BIG_T0 = 1610612736.0     # 1.5 * 2**30: quarters are exact floats there
+
+
+def emit_step_jobs(ctx):
+    """Rows are emitted every emit_step (not every batch): each row is
+    still labelled with the clock and holds exactly the updates due by
+    then."""
+    jobs = []
+    pc = [(0.75, 'always'), (1.5, 'always'), (1, 'always'), (2, 'never')]
+    for procs in itertools.combinations(pc, 2):
+        for sc in sched.scripts(1):
+            for emit_step in (2, 2.5, 0.5):
+                jobs.append(('S', procs, sc, False, 0, emit_step))
+    return jobs
 
 
 def big_clock_jobs(k):
@@ -83,8 +98,11 @@ def big_clock_jobs(k):
 def run_s(job, acc, monitors=MONITORS):
     _, procs, script, nested = job[:4]
     t0 = job[4] if len(job) > 4 else 0
-    spec = sched.s_world(procs, script, nested=nested, engine=(
-        {'initial_global_time': t0} if t0 else None))
+    eng_cfg = {'initial_global_time': t0} if t0 else {}
+    if len(job) > 5:
+        eng_cfg['emit_step'] = job[5]
+    spec = sched.s_world(procs, script, nested=nested,
+                         engine=eng_cfg or None)
     ex = worlds.execute(spec, guard_factory=sched.lasso_guard)
     p = sched.Parsed(ex)
     sched.record_states(acc, p)
@@ -96,7 +114,7 @@ def run_s(job, acc, monitors=MONITORS):
     if 'c03' in monitors:
         viols += sched.mon_c03_clock(spec, ex, p)
     n_tok = sum(len(v) for v in p.invokes.values())
-    acc.case(key=('S', procs, script, nested, t0),
+    acc.case(key=('S', procs, script, nested, t0) + tuple(job[5:]),
              outcome=f'S:tokens={min(n_tok, 12)}:rows='
                      f'{min(len(worlds.history_rows(ex)), 12)}',
              nontrivial=n_tok > 0 or any(c == 'never' for _, c in procs))
@@ -135,7 +153,8 @@ def v_world(ts_slow, ts_fast, script, order):
                                  'z': {'_default': 2.5, '_emit': True},
                                  'flag': {'_default': True,
                                           '_updater': 'set',
-                                          '_emit': True}},
+                                          '_emit': True},
+                                 'once': {'_default': 0, '_emit': True}},
                        # two variables declared with ONE default object
                        'gauge': {'a': {'_default': shared_default,
                                        '_emit': True},
@@ -147,7 +166,12 @@ def v_world(ts_slow, ts_fast, script, order):
                                  'z': {'_value': 0.0,
                                        '_updater': 'accumulate'},
                                  'flag': {'_value': False,
-                                          '_updater': 'set'}},
+                                          '_updater': 'set'},
+                                 # ONE update overrides the updater (set);
+                                 # the later plain updates accumulate again
+                                 'once': {'$n': {1: {'_value': 100,
+                                                     '_updater': 'set'}},
+                                          '$else': 1}},
                        'gauge': {'a': {'$lit': arr(5, 5)}}}}
     parts = {'slow': slow, 'fast': fast}
     topo = {'slow': {'pool': ('pool',), 'sink': ('sink',)},
@@ -194,7 +218,7 @@ def run_v(job, acc):
             ledger.append((cur[1], ev[5]))
     init = {('pool', 'level'): np.array([1., 2.]),
             ('sink', 'total'): np.array([0., 0.]),
-            ('tally', 'y'): 10, ('tally', 'z'): 2.5,
+            ('tally', 'y'): 10, ('tally', 'z'): 2.5, ('tally', 'once'): 0,
             ('gauge', 'a'): np.array([0., 0.]),
             ('gauge', 'b'): np.array([0., 0.])}
     for (T, data, snap) in worlds.history_rows(ex):
@@ -208,6 +232,9 @@ def run_v(job, acc):
                 for var, u in body.items():
                     if (port, var) == ('tally', 'flag'):
                         flag = u['_value']
+                        continue
+                    if isinstance(u, dict) and u.get('_updater') == 'set':
+                        want[(port, var)] = u['_value']
                         continue
                     if isinstance(u, dict):
                         u = u['_value']
@@ -463,9 +490,11 @@ def replay(case):
         run_par(('Par', case['procs'], case['script'][:-1],
                  case['parallel']), acc)
     elif case.get('family') == 'S':
-        run_s(('S', case['procs'], case['script'], case.get('nested', False),
-               case.get('engine', {}).get('initial_global_time', 0)),
-              acc, MONITORS)
+        job = ('S', case['procs'], case['script'], case.get('nested', False),
+               case.get('engine', {}).get('initial_global_time', 0))
+        if 'emit_step' in case.get('engine', {}):
+            job += (case['engine']['emit_step'],)
+        run_s(job, acc, MONITORS)
     else:
         afamily.replay(case, acc, MONITORS)
     return [v for exs in acc.viol_examples.values() for v in exs]
